@@ -1,6 +1,8 @@
 (* C05 / C12 hand model of FineContour.equaliseSpacing: the iteration that gives the fine contour constant spacing.
-     ds_error = max |ds - mean(ds)| of the distances between consecutive points (numpy.mean: for fewer than 8 elements the
-                sum runs from the left -- larger sums are pairwise in numpy and are NOT modelled; numpy.max runs from the left);
+     ds_error = max |ds - mean(ds)| of the distances between consecutive points; numpy.mean = numpy's PAIRWISE summation
+                (pairwise_sum below: fewer than 8 numbers from the left; up to 128 with eight interleaved accumulators combined
+                as ((r0+r1)+(r2+r3))+((r4+r5)+(r6+r7)) and the remainder added from the left; above 128 split at half the
+                length rounded down to a multiple of 8) divided by the count; numpy.max (exact in any order) from the left;
      while ds_error > finecontour_atol: stop with a warning once count > finecontour_maxits; otherwise place the points at
      uniform distances totalDistance/(Nfine-1) * indices_fine on the present polygon (interpFunction), mix with the old
      positions (factor 1 before the 8th round, finecontour_overdamping_factor from then on), put the points at startInd and
@@ -20,12 +22,33 @@ Section Equalise.
   Definition ezero : T := oconst O 0 1.
   Definition eone : T := oconst O 1 1.
 
-  Definition sum_left (l : list T) : T := match l with [] => ezero | x :: t => fold_left (oadd O) t x end.
+  (* numpy's pairwise summation (umath loops: @TYPE@_pairwise_sum, PW_BLOCKSIZE = 128) *)
+  Fixpoint acc8 (r0 r1 r2 r3 r4 r5 r6 r7 : T) (l : list T) : T :=
+    match l with
+    | a0 :: a1 :: a2 :: a3 :: a4 :: a5 :: a6 :: a7 :: t =>
+        acc8 (oadd O r0 a0) (oadd O r1 a1) (oadd O r2 a2) (oadd O r3 a3) (oadd O r4 a4) (oadd O r5 a5) (oadd O r6 a6) (oadd O r7 a7) t
+    | rest =>
+        fold_left (oadd O) rest
+          (oadd O (oadd O (oadd O r0 r1) (oadd O r2 r3)) (oadd O (oadd O r4 r5) (oadd O r6 r7)))
+    end.
+  Definition pw_block (l : list T) : T :=
+    match l with
+    | a0 :: a1 :: a2 :: a3 :: a4 :: a5 :: a6 :: a7 :: t => acc8 a0 a1 a2 a3 a4 a5 a6 a7 t
+    | _ => fold_left (oadd O) l ezero
+    end.
+  Fixpoint pairwise_sum (fuel : nat) (l : list T) : T :=
+    let n := length l in
+    if (n <=? 128)%nat then pw_block l
+    else match fuel with
+         | 0%nat => pw_block l
+         | S k => let n2 := (n / 2 - (n / 2) mod 8)%nat in oadd O (pairwise_sum k (firstn n2 l)) (pairwise_sum k (skipn n2 l))
+         end.
+  Definition np_sum (l : list T) : T := pairwise_sum 40 l.
   Definition max_left (l : list T) : T := match l with [] => ezero | x :: t => fold_left (fun a b => if olt O a b then b else a) t x end.
 
   Definition ds_error (dist : list T) : T :=
     let ds := diffs O dist in
-    let m := odiv O (sum_left ds) (oconst O (Z.of_nat (length ds)) 1) in
+    let m := odiv O (np_sum ds) (oconst O (Z.of_nat (length ds)) 1) in
     max_left (map (fun d => osqrt O (omul O (osub O d m) (osub O d m))) ds).
 
   Fixpoint set_nth {A} (i : nat) (x : A) (l : list A) : list A :=
